@@ -2,7 +2,7 @@
    Only statements (pinned), non-vacuity examples, the refutation witness for the known
    deviation F3 and Print Assumptions. Model: Factory/Model.v; proofs: Factory/Route.v. *)
 From Coq Require Import List NArith Bool.
-From RV Require Import Factory.Model Factory.Scenario Factory.Oracle Factory.Route Factory.RoutePool Factory.RouteUniq.
+From RV Require Import Factory.Model Factory.Scenario Factory.Oracle Factory.Route Factory.RoutePool Factory.RouteUniq Factory.RouteCouple.
 Import ListNotations.
 Local Open Scope N_scope.
 
@@ -75,15 +75,37 @@ Theorem C14_key_persistent_one_owner : forall c n d rls ls k w1 w2 p1 p2,
   has_pending p1 k = true -> has_pending p2 k = true -> w1 = w2.
 Proof. exact kp_one_owner. Qed.
 
+(* (6) AFFINITY, key-persistent routing, histories WITHOUT stale completions (run_ok: the factory
+   never takes a Finished(w,k) whose sender -- ghost field of MFinished -- is no longer the actor
+   behind slot w): two jobs of one key are never held -- in a handler or handed over to a mailbox --
+   by actors of two different workers. For every configuration, pool size, resize, worker death
+   and replacement, draining, stop. It rests on the coupling invariant (7) and on (5). *)
+Theorem C14_affinity : forall c n d rls ls a1 a2 x1 x2 j1 j2,
+  c_router c = RKeyPersistent ->
+  run_ok c (init c n d rls) ls ->
+  let w := run c (init c n d rls) ls in
+  lookup a1 (actors w) = Some x1 -> lookup a2 (actors w) = Some x2 ->
+  In j1 (actor_jobs x1) -> In j2 (actor_jobs x2) -> j_key j1 = j_key j2 ->
+  a_wid x1 = a_wid x2.
+Proof. exact kp_affinity. Qed.
+
+(* (7) the coupling invariant itself (all routers): for histories without stale completions,
+   whatever a worker actor holds is recorded in curr_jobs of the slot it stands behind *)
+Theorem C14_held_job_is_recorded : forall c n d rls ls a x j,
+  run_ok c (init c n d rls) ls ->
+  let w := run c (init c n d rls) ls in
+  lookup a (actors w) = Some x -> In j (actor_jobs x) ->
+  exists p, lookup (a_wid x) (pool w) = Some p /\ w_aid p = a /\ has_pending p (j_key j) = true.
+Proof. exact held_job_is_pending. Qed.
+
 (* actor side: a worker actor whose handler is busy does not take another job *)
 Theorem C14_actor_busy_takes_nothing : forall a w x,
   lookup a (actors w) = Some x -> a_run x <> None -> w_start a w = w.
 Proof. exact one_at_a_time_actor_side. Qed.
 
 (* OPEN (stated, not proved in this round):
-   C14_affinity: for key-persistent and sticky routing, over label sequences in which no
-     Finished message is processed after the death of its sender (ghost field of MFinished),
-     no two actors of different workers have a running job of the same key.
+   C14_affinity for STICKY routing (key-persistent: proved, (6)): needs uniqueness of the worker
+     processing a key, which in turn needs the queuer invariant below.
    C14_key_order: with key-persistent routing the EStart events of one key follow dispatch order.
    C14_queuer_no_idle_backlog (full): fq <> [] -> every idle non-draining pool worker is listed in `avail`.
    C14_one_at_a_time for the REAL slots (mailbox + running slot of a worker's actor hold at most one
@@ -150,6 +172,17 @@ Example oracle_flags_f3 :
   = [AActiveUnder 8 0 1; AAffinity 1 0 1 10].
 Proof. vm_compute. reflexivity. Qed.
 
+(* the hypothesis of (6)/(7) is decidable; it holds on ordinary histories with deaths and
+   replacements and fails exactly on the F3 history *)
+Definition death_ops := [ODispatch 1 1 None false; ODispatch 2 1 None false; OKill 0; OComplete 0;
+                         OResize 4; ODispatch 3 1 None false; OComplete 0].
+Example run_ok_with_deaths :
+  run_ok kp1 (init kp1 1 None []) (labels_of kp1 1 None [] death_ops).
+Proof. apply run_okb_ok. vm_compute. reflexivity. Qed.
+Example f3_is_excluded :
+  run_okb kp1 (init kp1 1 None []) (labels_of kp1 1 None [] f3_ops) = false.
+Proof. vm_compute. reflexivity. Qed.
+
 (* ---- F8 (fixed in /repo by aa3c2d4): key-persistent routing started with an empty pool. Under the
    pre-fix rule only pool_size backlogged jobs are routed when the pool grows; job 3 (same key),
    dispatched afterwards, goes straight to the worker's queue and starts before job 2. *)
@@ -175,3 +208,5 @@ Print Assumptions C14_queuer_no_idle_backlog_partial.
 Print Assumptions C14_one_at_a_time.
 Print Assumptions C14_actor_busy_takes_nothing.
 Print Assumptions C14_key_persistent_one_owner.
+Print Assumptions C14_affinity.
+Print Assumptions C14_held_job_is_recorded.
